@@ -506,7 +506,7 @@ class QuantPart(Part):
         return h
 
     def generate(self, rng, tier):
-        nh = 140 if tier == "quick" else 1000
+        nh = 140 if tier == "quick" else 700
         return self.witness_histories() + [self.one_history(rng, tier) for _ in range(nh)]
 
     # ------------------------------------------------------------------ the property statement on one implementation trace
@@ -746,7 +746,7 @@ class C07Quant(Spec):
     pid = "C07"
     props_modules = ["DSProofs.Props.C07_Quantiles"]
     tfamilies = ["quantiles"]
-    rule = ("histories over 1-6 live classic quantiles sketches of int64 / double items (k in {2,4,8,16} quick, up to 128 thorough; equal and "
+    rule = ("histories over 1-6 live classic quantiles sketches of int64 / double / std::string (custom length-first comparator) items (k in {2,4,8,16} quick, up to 128 thorough; equal and "
             "mixed k), update bursts (ascending, descending, random, constant, heavy duplicates, zig-zag, NaN / +-inf / +-0 / denormal "
             "doubles), merges lvalue/rvalue in random trees, copies, get_sorted_view, rank / quantile / CDF / PMF queries incl. invalid ones, "
             "recorded random choices fed to both sides; a history is non-trivial when some sketch reached estimation mode; distinct = "
@@ -756,7 +756,8 @@ class C07Quant(Spec):
                     "vector capacities / integer widths / allocators of quantiles_sketch are not modelled",
                     "tools/trules/quantiles.py (MIN_K, MAX_K, rank-error literals read from the headers)"]
     assumptions = ["theorems are about DSModel/Quantiles/*.lean; the tie to quantiles_sketch_impl.hpp is differential (sampled)",
-                   "the comparator is a strict weak order (int64 <, double < on non-NaN values)",
+                   "the comparator is a strict weak order on the accepted items (int64 <; double < restricted to non-NaN values, NaN never enters: "
+                   "C07q_nan_update_ignored / RelC.ok; std::string length-first)",
                    "self-merge a.merge(a) is excluded", "n < 2^64, k <= 32768 (no integer overflow modelled)"]
 
     def parts(self):
